@@ -96,6 +96,27 @@ func holdsBytes(t types.Type, seen map[types.Type]bool) bool {
 	return false
 }
 
+// holdsRef: can a value of this type reach memory that is not part of the value itself?
+func holdsRef(t types.Type, seen map[types.Type]bool) bool {
+	if t == nil || seen[t] {
+		return false
+	}
+	seen[t] = true
+	switch u := t.Underlying().(type) {
+	case *types.Slice, *types.Map, *types.Pointer, *types.Chan:
+		return true
+	case *types.Array:
+		return holdsRef(u.Elem(), seen)
+	case *types.Struct:
+		for i := 0; i < u.NumFields(); i++ {
+			if holdsRef(u.Field(i).Type(), seen) {
+				return true
+			}
+		}
+	}
+	return false
+}
+
 func typeName(t types.Type) string {
 	for {
 		if p, ok := t.(*types.Pointer); ok {
@@ -346,6 +367,9 @@ func runCensus(repo string) (map[string][]string, error) {
 			if d.dir == "." && tp != nil {
 				imp.pkgs[path] = tp // the handlers import the real (partially typed) root package
 			}
+			if tp != nil {
+				censusTypes(d.dir, tp, sites)
+			}
 			want := map[string]bool{}
 			for _, f := range d.files {
 				want[f] = true
@@ -384,6 +408,12 @@ func runCensus(repo string) (map[string][]string, error) {
 							t := info.TypeOf(res.Type)
 							if t == nil {
 								continue
+							}
+							// every exported query whose result can reach retained state (pointer, map, slice, byte slice):
+							// keyed by its API name; the table says "copy" (then kind hw overwrites the result) or "shared by contract"
+							if holdsRef(t, map[types.Type]bool{}) && fd.Name.Name != "FastLog" && fd.Name.Name != "Log" {
+								key := d.dir + ":query " + name + " " + typeName(t)
+								sites[key] = append(sites[key], rel+" ("+fset.Position(res.Pos()).String()+")")
 							}
 							if _, isPtr := t.Underlying().(*types.Pointer); isPtr {
 								continue // a pointer to a table record: shared by contract (documented locking)
@@ -452,4 +482,51 @@ func checkCensus(r *lib.Run) {
 		total += len(sites[k])
 	}
 	r.Stat("census.sites", int64(total))
+}
+
+// handle types: their exported fields that can reach retained state are shared with the application by contract
+var handleTypes = map[string]bool{"Session": true, "Handler": true, "Handler6": true, "Handler4": true, "DNSHandler": true, "RADVS": true}
+
+// record types of the retained state: every string-typed field is a place where bytes of a packet can be kept as text
+var recordTypes = map[string]bool{"Host": true, "MACEntry": true, "NameEntry": true, "Notification": true, "IPNameEntry": true, "DNSNameEntry": true,
+	"Lease": true, "DNSEntry": true, "IPResourceRecord": true, "NameResourceRecord": true, "DNSSearchList": true, "Router": true, "HostName": true, "cache": true}
+
+func holdsString(t types.Type, seen map[types.Type]bool) bool {
+	if t == nil || seen[t] {
+		return false
+	}
+	seen[t] = true
+	switch u := t.Underlying().(type) {
+	case *types.Basic:
+		return u.Info()&types.IsString != 0
+	case *types.Slice:
+		return holdsString(u.Elem(), seen)
+	case *types.Map:
+		return holdsString(u.Key(), seen) || holdsString(u.Elem(), seen)
+	}
+	return false
+}
+
+func censusTypes(dir string, tp *types.Package, sites map[string][]string) {
+	for _, n := range tp.Scope().Names() {
+		tn, ok := tp.Scope().Lookup(n).(*types.TypeName)
+		if !ok {
+			continue
+		}
+		st, ok := tn.Type().Underlying().(*types.Struct)
+		if !ok {
+			continue
+		}
+		for i := 0; i < st.NumFields(); i++ {
+			f := st.Field(i)
+			if handleTypes[n] && f.Exported() && holdsRef(f.Type(), map[types.Type]bool{}) {
+				k := dir + ":exported field " + n + "." + f.Name()
+				sites[k] = append(sites[k], "type "+n)
+			}
+			if recordTypes[n] && holdsString(f.Type(), map[types.Type]bool{}) {
+				k := dir + ":strfield " + n + "." + f.Name()
+				sites[k] = append(sites[k], "type "+n)
+			}
+		}
+	}
 }
